@@ -23,6 +23,8 @@ struct Case {
     cc_d: Option<&'static str>,
     /// which level's type the address-bound impl function belongs to
     impl_level: usize,
+    /// arrangement of each function's attributes (address / index / convention), see spec::Printer::attr_order
+    arr: u8,
 }
 
 fn cases() -> Vec<Case> {
@@ -34,13 +36,13 @@ fn cases() -> Vec<Case> {
                 for recv_impl in [Recv::None, Recv::Const, Recv::Mut] {
                     for depth in 1..=3 {
                         for placeholders in [false, true] {
-                            out.push(Case { cc_v: *cc_v, recv_v, cc_impl: *cc_impl, recv_impl, depth, placeholders, derived_differs: false, cc_d: *cc_v, impl_level: 0 });
+                            out.push(Case { cc_v: *cc_v, recv_v, cc_impl: *cc_impl, recv_impl, depth, placeholders, derived_differs: false, cc_d: *cc_v, impl_level: 0, arr: 0 });
                             if thorough && depth >= 2 {
                                 // the derived levels' own functions carry an independent convention, and the
                                 // impl function sits on the most derived type
                                 for cc_d in CCS {
                                     if cc_d != cc_v {
-                                        out.push(Case { cc_v: *cc_v, recv_v, cc_impl: *cc_impl, recv_impl, depth, placeholders, derived_differs: false, cc_d: *cc_d, impl_level: depth - 1 });
+                                        out.push(Case { cc_v: *cc_v, recv_v, cc_impl: *cc_impl, recv_impl, depth, placeholders, derived_differs: false, cc_d: *cc_d, impl_level: depth - 1, arr: 0 });
                                     }
                                 }
                             }
@@ -51,9 +53,20 @@ fn cases() -> Vec<Case> {
             // a derived level that declares the inherited slot with a different convention
             for depth in 2..=3 {
                 for placeholders in [false, true] {
-                    out.push(Case { cc_v: *cc_v, recv_v, cc_impl: None, recv_impl: Recv::Const, depth, placeholders, derived_differs: true, cc_d: *cc_v, impl_level: 0 });
+                    out.push(Case { cc_v: *cc_v, recv_v, cc_impl: None, recv_impl: Recv::Const, depth, placeholders, derived_differs: true, cc_d: *cc_v, impl_level: 0, arr: 0 });
                 }
             }
+        }
+    }
+    // the convention written before / after the function's other attributes and in its own bracket
+    let arrs: &[u8] = if thorough { &[1, 2, 3] } else { &[1] };
+    let base: Vec<Case> = out.iter().filter(|c| c.cc_d == c.cc_v && c.impl_level == 0 && (c.cc_v.is_some() || c.cc_impl.is_some())).cloned().collect();
+    for arr in arrs {
+        for c in &base {
+            if !thorough && !(c.placeholders || c.depth == 1) {
+                continue;
+            }
+            out.push(Case { arr: *arr, ..c.clone() });
         }
     }
     out
@@ -116,7 +129,7 @@ fn input_of(c: &Case) -> pipe::Input {
     f.address = Some(0x1000);
     f.args = vec![("a".into(), MTy::b("u32"))];
     items.push(Item::Impl { name: names[c.impl_level].into(), funcs: vec![f] });
-    to_input(&[ModuleS::new("m").with(items)])
+    to_input_arranged(&[ModuleS::new("m").with(items)], c.arr)
 }
 
 fn judge(c: &Case, text: &str) -> Option<(String, String)> {
@@ -172,13 +185,13 @@ fn judge(c: &Case, text: &str) -> Option<(String, String)> {
 /// Inputs for C13: without receiver-less virtual functions (their wrappers cannot name a
 /// vftable to dispatch through; outside the documented fragment).
 pub fn all_inputs() -> Vec<pipe::Input> {
-    cases().iter().filter(|c| c.recv_v != Recv::None && c.impl_level == 0 && c.cc_d == c.cc_v).map(input_of).collect()
+    cases().iter().filter(|c| c.recv_v != Recv::None && c.impl_level == 0 && c.cc_d == c.cc_v && c.arr == 0).map(input_of).collect()
 }
 
 pub fn run(tier: &str, only: Option<&Value>) -> i32 {
     let mut rep = Report::new("C16", tier);
     let all = cases();
-    rep.rule = "E1: convention in {absent, C, cdecl, stdcall, fastcall, thiscall, vectorcall, system, an invalid name} for a virtual function (receiver &self / &mut self) and independently for an address-bound impl function (no receiver / &self / &mut self), through inheritance chains of depth 1..3 that re-declare the slot, with and without placeholder slots (index gap and declared table size); oracle: ABI strings parsed with syn from the unmodified output; accepted outputs compiled unmodified for i686-pc-windows-msvc. Thorough: the functions added by derived levels carry an independent convention from the same nine, and the impl function sits on the most derived type. distinct = distinct (vfunc convention, receiver, impl convention, receiver, depth, placeholders)".into();
+    rep.rule = "E1: convention in {absent, C, cdecl, stdcall, fastcall, thiscall, vectorcall, system, an invalid name} for a virtual function (receiver &self / &mut self) and independently for an address-bound impl function (no receiver / &self / &mut self), through inheritance chains of depth 1..3 that re-declare the slot, with and without placeholder slots (index gap and declared table size), the convention written after (and, reversed, before) the function's address / index attribute; oracle: ABI strings parsed with syn from the unmodified output; accepted outputs compiled unmodified for i686-pc-windows-msvc. Thorough: the functions added by derived levels carry an independent convention from the same nine, and the impl function sits on the most derived type. distinct = distinct (vfunc convention, receiver, impl convention, receiver, depth, placeholders)".into();
     rep.assumptions = vec!["rustc nightly's acceptance of an ABI string on i686-pc-windows-msvc (feature abi_vectorcall enabled) shows it is a real convention there".into()];
     let only_i = only.map(|l| (l["index"].as_u64().unwrap_or(0) as usize, l["ps"].as_u64().unwrap_or(8) as usize));
     for ps in [4usize, 8] {
